@@ -1,3 +1,5 @@
+//go:build go1.23
+
 package tbtc
 
 // C12, wallet coordination (follower routine) and signing completion (done
